@@ -91,7 +91,59 @@ func harnessDocs(files []sym.HarnessFile) map[string]string {
 	return docs
 }
 
+// cmdReplay re-runs one recorded counterexample natively: /verif/bin/check --replay <file>.
+func cmdReplay(path string) int {
+	b, err := os.ReadFile(path)
+	if err != nil {
+		fmt.Fprintln(os.Stderr, err)
+		return 2
+	}
+	var rf struct {
+		Harness   string            `json:"property_harness"`
+		Package   string            `json:"package"`
+		Kind      string            `json:"kind"`
+		Assertion string            `json:"assertion"`
+		Site      string            `json:"site"`
+		Model     map[string]string `json:"model"`
+		Choices   []int             `json:"choices"`
+		Tier      int               `json:"tier"`
+	}
+	if err := json.Unmarshal(b, &rf); err != nil {
+		fmt.Fprintln(os.Stderr, err)
+		return 2
+	}
+	re := regexp.MustCompile("^" + regexp.QuoteMeta(rf.Harness) + "$")
+	files, names, err := sym.FindHarnesses(re)
+	if err != nil || len(names) == 0 {
+		fmt.Fprintln(os.Stderr, "harness not found:", rf.Harness)
+		return 2
+	}
+	work := filepath.Join("/verif/.work", fmt.Sprintf("replay-%d", os.Getpid()))
+	os.MkdirAll(work, 0o755)
+	defer os.RemoveAll(work)
+	rp := &replayer{work: work, files: files, names: names, tier: rf.Tier, active: map[string]bool{}}
+	v := sym.Violation{Harness: rf.Harness, Kind: rf.Kind, Label: rf.Assertion, Site: rf.Site, Model: rf.Model, Choices: rf.Choices}
+	tmp := filepath.Join(work, "replay.json")
+	out, reproduced, err := rp.replay(rf.Package, v, tmp)
+	if err != nil {
+		fmt.Fprintln(os.Stderr, "native replay could not run:", err)
+		return 2
+	}
+	fmt.Print(out)
+	if reproduced {
+		fmt.Printf("REPRODUCED harness=%s kind=%s assertion=%q\n", rf.Harness, rf.Kind, rf.Assertion)
+		return 1
+	}
+	fmt.Printf("NOT REPRODUCED on the current tree: harness=%s kind=%s assertion=%q\n", rf.Harness, rf.Kind, rf.Assertion)
+	return 0
+}
+
 func cmdCheck(args []string) int {
+	for i, a := range args {
+		if a == "--replay" && i+1 < len(args) {
+			return cmdReplay(args[i+1])
+		}
+	}
 	fs := flag.NewFlagSet("check", flag.ExitOnError)
 	tierS := fs.String("tier", "", "quick|thorough (default: $VERIF_TIER or quick)")
 	jobs := fs.Int("jobs", 16, "workers")
